@@ -142,6 +142,9 @@ def _cases(tier):
     for arg, ob in DEFAULTS:
         for F in FS:
             cases.append({"dflt": arg, "obs": ob, "F": F})
+    for st in HAND_OPS:
+        for F in FS:
+            cases.append({"handop": st, "F": F})
     for arg, ob, ok in HAND:
         for F in FS:
             cases.append({"hand": arg, "obs": ob, "agree": ok, "F": F})
@@ -225,6 +228,16 @@ HAND = [
 ]
 
 
+# user-controlled parts inside bounds, members and sub-snapshot values whose comparison holds: no category has anything to do there
+HAND_OPS = [
+    "assert [1] <= snapshot([Is(1)])", "assert [1] >= snapshot([Is(1)])", "assert ['s0'] <= snapshot([f\"{'s'}0\"])", "assert 's0' >= snapshot(f\"{'s'}0\")",
+    "assert (1, [2]) <= snapshot((1, [Is(2)]))", "assert [1] in snapshot([[Is(1)]])", "assert ['s0'] in snapshot([[f\"{'s'}0\"]])",
+    "assert {'k': 1} in snapshot([{'k': Is(1)}])", "assert (1, 's0') in snapshot([(Is(1), f\"{'s'}0\")])",
+    "s = snapshot({'a': f\"{'s'}0\"}); assert 's0' <= s['a']", "s = snapshot({'a': [[Is(1)]]}); assert [1] in s['a']",
+    "s = snapshot({'a': [Is(1), 2]}); assert [1, 2] <= s['a']", "s = snapshot({'a': {'b': [Is(1)]}}); assert [1] >= s['a']['b']",
+]
+
+
 def _arg(c):
     if "star" in c:
         return c["star"]
@@ -236,6 +249,8 @@ def _site(i, c):
         return "def test_%d():\n    _ok = %s == snapshot(%s)\n" % (i, c["obs"], c["dflt"])
     if "reeval" in c:
         return "def test_%d():\n    for i in (1, 2, 3, 2):\n        %s\n" % (i, c["reeval"].replace("; ", "\n        "))
+    if "handop" in c:
+        return "def test_%d():\n    %s\n" % (i, c["handop"].replace("; ", "\n    "))
     if "hand" in c and c.get("never"):
         return "def test_%d():\n    s = snapshot(%s)\n" % (i, c["hand"])
     if "hand" in c:
@@ -299,6 +314,10 @@ def _analyze(c, i, before, after, rx, ctx):
             return ("unmanaged-text-altered", "%s -> %s" % (btxt, atxt))
         if "fix" in F and "n=2" in c["obs"] and "n=2" not in atxt.replace(" ", ""):
             return ("managed-siblings-not-repaired", "%s -> %s" % (btxt, atxt))
+        return None
+    if "handop" in c:
+        if atxt != btxt:
+            return ("unmanaged-text-altered", "the comparison holds, nothing is pending: %s -> %s (approved %s)" % (btxt, atxt, sorted(F)))
         return None
     if "hand" in c:
         try:
@@ -394,5 +413,5 @@ def run_case(case):
 
 def run_task(task):
     return batch.run_batched(task["cases"], _judge,
-                             label=lambda c: "ok:hand" if "hand" in c else "ok:star" if "star" in c else ("ok:reeval" if "reeval" in c else "ok:defaults" if "dflt" in c else "ok:%s:%s" % (c["c"], c["o"][0])),
+                             label=lambda c: "ok:handop" if "handop" in c else "ok:hand" if "hand" in c else "ok:star" if "star" in c else ("ok:reeval" if "reeval" in c else "ok:defaults" if "dflt" in c else "ok:%s:%s" % (c["c"], c["o"][0])),
                              key=lambda c: repr(sorted(c.items())))
